@@ -6,7 +6,9 @@ from hypothesis import strategies as st
 from vf.core import Sub, Violation, Skip
 
 PROPERTY = "C03"
-RULE = ("Hypothesis-generated (observations, ensemble) pairs: n forecasts x m "
+RULE = ("(sizes sub-check: 31..1025 (thorough 4097) members or forecasts, at and "
+        "around powers of two, with observations outside the ensemble.) " +
+        "Hypothesis-generated (observations, ensemble) pairs: n forecasts x m "
         "members from four value regimes (continuous normals, small integer "
         "lattice with heavy ties, observation outside the ensemble for every "
         "forecast, constant ensembles), NaN observations scattered, inputs as "
@@ -360,7 +362,68 @@ def large_oracle(case):
     return {"nt": True, "labels": [f"n:{n}"]}
 
 
+def enum_wide(tier):
+    """Ensemble and record sizes at and around powers of two (internal
+    buffers, unrolled loops): 1..6 forecasts of m members, and m forecasts
+    of 3 members."""
+    ms = [31, 32, 33, 63, 64, 65, 127, 128, 129, 255, 256, 257, 511, 512,
+          513, 1023, 1024, 1025]
+    if tier == "thorough":
+        ms += [100, 200, 1000, 2047, 2048, 2049, 4096, 4097]
+    for m in ms:
+        for k in range(2):
+            yield {"m": m, "k": k, "shape": "wide"}
+        yield {"m": m, "k": 0, "shape": "long"}
+
+
+def wide_oracle(case):
+    m, k = case["m"], case["k"]
+    rng = np.random.RandomState(1000 * k + m)
+    if case["shape"] == "wide":
+        n = 3 + k * 3
+        ens = rng.normal(size=(n, m)) * 2
+        if k:
+            ens = np.round(ens * 2) / 2               # ties
+        obs = rng.normal(size=n) * 2
+        # observations below, above and inside the ensemble range
+        obs[0] = ens[0].min() - 1.25
+        obs[1] = ens[1].max() + 0.75
+    else:
+        n = m
+        ens = rng.normal(size=(n, 3))
+        obs = rng.normal(size=n)
+        obs[n // 2] = ens[n // 2].min() - 0.5
+    d, t = metrics.crps(obs.copy(), ens.copy())
+    tol = 1e-9 * max(1.0, np.abs(obs).max(), np.abs(ens).max())
+    rc, ru = ref_crps(obs, ens), ref_unc(obs)
+    if not close(d["crps"], rc, tol):
+        raise Violation(f"{n} forecasts x {m if case['shape'] == 'wide' else 3}"
+                        f" members: crps {d['crps']!r} != definition {rc!r}")
+    if not close(d["uncertainty"], ru, tol):
+        raise Violation(f"{n} forecasts: uncertainty {d['uncertainty']!r} != "
+                        f"0.5 mean|y-y'| {ru!r}")
+    if not close(d["crps"], d["reliability"] + d["potential"], tol) or \
+            not close(d["resolution"], d["uncertainty"] - d["potential"],
+                      tol):
+        raise Violation(f"{n} x {ens.shape[1]}: decomposition identities "
+                        f"broken: {d.to_dict()}")
+    if not (case["shape"] == "wide" and k):
+        reli, pot = ref_hersbach(obs, ens)
+        if not close(d["reliability"], reli, tol) or \
+                not close(d["potential"], pot, tol):
+            raise Violation(
+                f"{n} x {ens.shape[1]}: reliability/potential "
+                f"{d['reliability']!r}/{d['potential']!r} != Hersbach "
+                f"reference {reli!r}/{pot!r}")
+    if len(t) != ens.shape[1] + 1:
+        raise Violation(f"decomposition table has {len(t)} rows for "
+                        f"{ens.shape[1]} members")
+    return {"nt": True, "labels": [f"{case['shape']}:{m}"]}
+
+
 SUBS = [
+    Sub("C03.sizes-around-powers-of-two", wide_oracle, enumerate=enum_wide,
+        shards=(16, 16)),
     Sub("C03.long-records", large_oracle, enumerate=enum_large,
         shards=(1, 8)),
     Sub("C03.definition+decomposition+metamorphic", oracle, strategy=cases,
